@@ -114,6 +114,7 @@ impl World {
                 let child = match op.k {
                     K::Adopt => Some(op.d),
                     K::BarrierOnly | K::AdoptWeak | K::LeafBarrier => Some(op.c),
+                    K::AdoptLeaf => self.sh.objs[op.c as usize].leaf,
                     K::AdoptBy2 => Some(op.a),
                     K::AdoptUp => self.sh.objs[op.b as usize].w,
                     K::AdoptWeakFrom => self.sh.objs[op.c as usize].w,
@@ -134,7 +135,7 @@ impl World {
                 );
             }
         }
-        if matches!(op.k, K::CloneH | K::CloneFromH | K::DropH | K::PDropH) && (debt_post != debt_pre || self.metrics.total_gc_count() != cnt_pre) {
+        if matches!(op.k, K::CloneH | K::CloneFromH | K::DropH | K::DropHL | K::PDropH) && (debt_post != debt_pre || self.metrics.total_gc_count() != cnt_pre) {
             viol!("c10.handle_op_changed_metrics", "{op:?} changed metrics");
         }
 
@@ -171,7 +172,7 @@ impl World {
         if !self.sc.fin {
             return Ok(());
         }
-        if (cb || matches!(op.k, K::DropH | K::CloneH | K::CloneFromH | K::PDropH)) && matches!(pre, P::Marking | P::Marked) {
+        if (cb || matches!(op.k, K::DropH | K::DropHL | K::CloneH | K::CloneFromH | K::PDropH)) && matches!(pre, P::Marking | P::Marked) {
             // (dropping a handle un-roots its target: a mutation of the root set)
             self.mutated = true;
         }
@@ -208,7 +209,7 @@ impl World {
 
     fn c08(&self, op: Op, pre: P, post: P, ret_some: Option<bool>) -> VResult {
         let nonempty = self.metrics.total_gc_count() > 0;
-        if is_callback(op) || matches!(op.k, K::CloneH | K::CloneFromH | K::DropH | K::PDropH | K::AdjustDebt | K::SetPacing) {
+        if is_callback(op) || matches!(op.k, K::CloneH | K::CloneFromH | K::DropH | K::DropHL | K::PDropH | K::AdjustDebt | K::SetPacing) {
             if op.is_fin() && !self.last_fin_ran {
                 if post != pre {
                     viol!("c08.callback_phase", "{op:?}: no MarkedArena was handed out but the phase moved {pre:?} -> {post:?}");
@@ -519,6 +520,17 @@ impl World {
                         }
                     }
                 }
+                if sc.barrier {
+                    for q in &nodes {
+                        if let Some(l) = self.sh.objs[*q as usize].leaf {
+                            if q != p && so.leaf != Some(l) {
+                                for path in 1..=4u8 {
+                                    ops.push(Op::n3(K::AdoptLeaf, path, *p, *q));
+                                }
+                            }
+                        }
+                    }
+                }
                 if sc.weakleaf {
                     for q in &nodes {
                         if let Some(l) = self.sh.objs[*q as usize].leaf {
@@ -581,6 +593,24 @@ impl World {
                             ops.push(Op::n3(K::FetchLink, hi, *p, 0));
                         }
                     }
+                }
+            }
+        }
+        if sc.sets > 0 && sc.leaf {
+            for hi in 0..2u8 {
+                match self.sh.lhandles[hi as usize] {
+                    None => {
+                        if (0..hi).all(|j| self.sh.lhandles[j as usize].is_some()) {
+                            for set in 0..sc.sets {
+                                for p in &nodes {
+                                    if self.sh.objs[*p as usize].leaf.is_some() {
+                                        ops.push(Op::n3(K::StashLeaf, hi, *p, set));
+                                    }
+                                }
+                            }
+                        }
+                    }
+                    Some(_) => ops.push(Op::n1(K::DropHL, hi)),
                 }
             }
         }
